@@ -46,6 +46,7 @@ fn main() {
         "mux" => mux::run(&a),
         "mux-replay" => mux::replay(&a),
         "srv-c03" => srv::c03(&a),
+        "srv-c02-timeouts" => srv::c02_timeouts(&a),
         "ws-c16" => wsx::c16(&a),
         "ws-c17" => wsx::c17(&a),
         "ws-c15" => life::run(&a),
